@@ -50,5 +50,7 @@ impl Pin {
     pub fn new<T>(t: T) -> (r: T) ensures r == t { t }
 }
 
+pub use core::convert::Infallible;
+/// rule R5d: a zero-arm `match x {}` — `x` has no values, the call is never reached; nothing is said about the result
 #[verifier::external_body]
-pub struct Infallible { _p: () }
+pub fn vabsurd<T>(x: Infallible) -> T { match x {} }
